@@ -714,11 +714,55 @@ pub fn gen_history(r: &mut Rng, g: &GenCfg) -> Vec<Value> {
     ops
 }
 
+
+/// Which values of an op does a replica that never sees unacceptable entries receive?  (C03, twin run.)
+/// The rule is the driver's own filter, not an oracle: every decision is logged (`tw`) and the trace
+/// specification checks it against `Acceptable` before it trusts the twin's state.
+fn val_kept(w: &World, e: &Value, cls: &str, now: u64) -> bool {
+    let (se, nsok, sigok) = forge(w, cls, e["a"].as_i64().unwrap(), &key_of(&e["k"]), e["ts"].as_u64().unwrap(),
+                                  e["h"].as_i64().unwrap(), e["len"].as_u64().unwrap());
+    let empty_hash = se.content_hash() == iroh_blobs::Hash::EMPTY;
+    nsok && sigok && se.timestamp() <= now + MAX_SHIFT && (empty_hash == (se.content_len() == 0))
+}
+
+/// (op for the twin or None, the logged keep-flags)
+fn twin_op(w: &World, op: &Value) -> (Option<Value>, Value) {
+    let now = op["now"].as_u64().unwrap_or(1000);
+    match op["op"].as_str().unwrap() {
+        "remote" => {
+            let keep = val_kept(w, &op["e"], op["cls"].as_str().unwrap_or("ok"), now);
+            (if keep { Some(op.clone()) } else { None }, json!(keep))
+        }
+        "msg" => {
+            let mut t = op.clone();
+            let mut flags = vec![];
+            for (pi, p) in op["parts"].as_array().unwrap().iter().enumerate() {
+                let mut pf = vec![];
+                let mut kept = vec![];
+                if let Some(vals) = p["vals"].as_array() {
+                    for v in vals {
+                        let k = val_kept(w, &v["e"], v["cls"].as_str().unwrap_or("ok"), now);
+                        pf.push(json!(k));
+                        if k {
+                            kept.push(v.clone());
+                        }
+                    }
+                    t["parts"][pi]["vals"] = Value::Array(kept);
+                }
+                flags.push(Value::Array(pf));
+            }
+            (Some(t), Value::Array(flags))
+        }
+        _ => (Some(op.clone()), json!(true)),
+    }
+}
+
 /// Run a list of histories, emitting one `Reset` + events per history.
 pub fn run_histories(
     w: &World,
     seed: u64,
     neighbours: bool,
+    twin: bool,
     histories: &[(Vec<Value>, bool)],
     dir: &Path,
     trace: &mut Trace,
@@ -738,6 +782,7 @@ pub fn run_histories(
         };
         let bname = backend.name();
         let mut run = Run::new(w, backend);
+        let mut shadow = if twin { Some(Run::new(w, Backend::Mem)) } else { None };
         if neighbours {
             rt.block_on(run.add_neighbour_docs());
         }
@@ -752,7 +797,18 @@ pub fn run_histories(
                     Err(_) => Some(json!({"ev":"PANIC","op":op.clone()})),
                 }
             });
-            if let Some(ev) = res {
+            if let Some(mut ev) = res {
+                if let (Some(sh), false) = (shadow.as_mut(), ev["ev"] == "PANIC") {
+                    // the same history on a replica that is never shown the unacceptable entries
+                    let (top, flags) = twin_op(w, op);
+                    if let Some(top) = top {
+                        let _ = rt.block_on(async {
+                            futures_lite::future::FutureExt::catch_unwind(std::panic::AssertUnwindSafe(sh.step(&top))).await
+                        });
+                    }
+                    ev["tw"] = flags;
+                    ev["twin"] = w.contents(sh.store.as_mut().unwrap(), w.nsid());
+                }
                 let panicked = ev["ev"] == "PANIC";
                 sum.add(&format!("ev_{}", ev["ev"].as_str().unwrap_or("?")), 1);
                 trace.emit(ev);
